@@ -3,6 +3,7 @@ pub mod c01;
 pub mod c06;
 pub mod c07;
 pub mod c16;
+pub mod c17;
 pub mod findings;
 
 use crate::common::{Report, Tier};
@@ -13,6 +14,7 @@ pub fn run(id: &str, tier: Tier) -> Option<Report> {
         "C06" => c06::run(tier),
         "C07" => c07::run(tier),
         "C16" => c16::run(tier),
+        "C17" => c17::run(tier),
         _ => return None,
     })
 }
@@ -29,7 +31,7 @@ pub fn replay(id: &str, path: &str) -> i32 {
     let replay = &doc["replay"];
     println!("{}", doc["summary"].as_str().unwrap_or(""));
     match (id, replay["kind"].as_str()) {
-        ("C01" | "C06" | "C16", Some("pipeline")) => behave::replay_pipeline(replay, behave::no_env, behave::no_env),
+        ("C01" | "C06" | "C16", Some("pipeline")) => behave::replay_pipeline(replay, behave::env_none(), behave::env_none()),
         _ => {
             println!("no dedicated replay for this record; the summary above holds the complete case");
             2
